@@ -147,7 +147,11 @@ def run(ctx):
     out = Outcome()
     out.rule = ("sequences of header lines over the pragma grammar (start symbol, key, single-space separator, values with inner/trailing blanks, the four special keys with "
                 "recognised / unrecognised values, duplicates anywhere); parse exactness vs a direct grammar, print->parse identity, accessors, header-level rules, "
-                "derived-header independence; non-trivial = at least one kept pragma and one diagnosed line or a special key; distinct line sequences")
+                "derived-header independence; every constructor / reader path (from_lines, from_line_reader over text handles with LF / CRLF and over a file, MafReader over lines, "
+                "MafReader.reader_from on a plain and a gzip file, from_reader) must give the same header for the same lines in every validation mode; edit histories "
+                "(set / update / setdefault / del / pop / popitem / clear / in-place value edits of version, annotation.spec, sort.order, contigs and ordinary keys, failing edits included) "
+                "on headers from from_lines, a reader, from_reader (with overrides), from_defaults and from_line_reader, observed after random steps: the header must say what a header "
+                "freshly parsed from its own printed lines says; non-trivial = at least one kept pragma and one diagnosed line or a special key; distinct line sequences / histories")
     rng = ctx.rng("hdr")
     sv, sa = supported()
     reqs = []
@@ -165,14 +169,30 @@ def run(ctx):
         if len(out.samples) < 4 and errors and kept:
             out.sample({"lines": lines, "kept": kept, "errors": errors})
     derived_header_cases(ctx, out, rng)
+    reqs += constructor_cases(ctx, out)      # the same lines in their validation mode, for the model
+    edit_reqs = edit_history_cases(ctx, out)
     mo = ctx.driver.run(reqs)
     for r, m in zip(reqs, mo):
         i = impl.run(r)
         if has_unmodelled(m):
             out.unmodelled += 1
         elif m != i:
-            out.disagreements.append({"op": "hdr.lines", "lines": r["lines"],
+            out.disagreements.append({"op": "hdr.lines", "lines": r["lines"], "mode": r.get("mode"),
                                       "differs": [k for k in sorted(set(m) | set(i)) if m.get(k) != i.get(k)]})
+    # the model's header for the printed lines of an edited header against what the edited header itself says
+    if edit_reqs:
+        mo = ctx.driver.run([r for r, _i in edit_reqs])
+        for (r, i), m in zip(edit_reqs, mo):
+            if has_unmodelled(m):
+                out.unmodelled += 1
+                continue
+            mh = m.get("header", {}) if isinstance(m, dict) else {}
+            mine = {"records": mh.get("records"), "version": mh.get("version"), "annotation": mh.get("annotation"),
+                    "sort_order": mh.get("sort_order"), "contigs": mh.get("contigs"), "scheme": m.get("scheme") if isinstance(m, dict) else None,
+                    "checks": [e[0] for e in mh.get("errors", [])] if isinstance(mh.get("errors"), list) else None}
+            if mine != i:
+                out.disagreements.append({"op": "hdr.lines(printed lines of an edited header)", "lines": r["lines"],
+                                          "differs": [k for k in sorted(mine) if mine.get(k) != i.get(k)], "model": mine, "impl": i})
     return out
 
 
@@ -283,6 +303,424 @@ def derived_header_cases(ctx, out, rng):
         out.nontrivial.add(("derived", repr(lines), tuple(st["m"] for st in steps)))
 
 
+# ----------------------------------------------------------------- every constructor gives the same header
+CTOR_PATHS = ["line_reader:lf", "line_reader:crlf", "line_reader:file", "reader", "reader:eol", "reader_from", "reader_from:gz", "from_reader"]
+FILE_PATHS = ("line_reader:file", "reader_from", "reader_from:gz")
+COLUMN_LINE = "c1\tc2"
+
+
+def scheme_id(sch):
+    return None if sch is None else [sch.version(), sch.annotation_spec()]
+
+
+def full_snapshot(h):
+    d = snapshot(h)
+    d["errors"] = [list(e) if isinstance(e, tuple) else e for e in d["errors"]]
+    d["records"] = [[k, str(h[k])] for k in h]
+    try:
+        d["scheme"] = scheme_id(h.scheme())
+    except Exception as e:  # noqa
+        d["scheme"] = "EXC:" + exc_name(e)
+    return d
+
+
+def header_part(lines):
+    """The header of a file is its leading run of lines starting with the start symbol."""
+    out = []
+    for l in lines:
+        if not l.startswith("#"):
+            break
+        out.append(l)
+    return out
+
+
+def build_by(path, lines, mode):
+    """The header the constructor / reader path `path` gives for a file consisting of `lines`, a column line and one record."""
+    import gzip
+    import io
+    import os
+    import tempfile
+    from maflib.header import MafHeader
+    from maflib.reader import MafReader
+    from maflib.util import LineReader
+    vs = impl.MODES[mode]
+    body = lines + [COLUMN_LINE, "a\tb"]
+    tmp = None
+    try:
+        if path in FILE_PATHS:
+            gz = path.endswith(":gz")
+            fd, tmp = tempfile.mkstemp(suffix=".maf.gz" if gz else ".maf", prefix="verif_c13_")
+            os.close(fd)
+            text = "".join(l + "\n" for l in body)
+            if gz:
+                with gzip.open(tmp, "wt") as hd:
+                    hd.write(text)
+            else:
+                with open(tmp, "w") as hd:
+                    hd.write(text)
+        if path == "from_lines":
+            return MafHeader.from_lines(header_part(lines), validation_stringency=vs)
+        if path.startswith("line_reader"):
+            if path == "line_reader:file":
+                handle = open(tmp, "r")
+            else:
+                eol = "\r\n" if path.endswith("crlf") else "\n"
+                handle = io.StringIO("".join(l + eol for l in body), newline="")
+            try:
+                return MafHeader.from_line_reader(LineReader(handle), validation_stringency=vs)
+            finally:
+                handle.close()
+        if path.startswith("reader_from"):
+            rd = MafReader.reader_from(tmp, validation_stringency=vs)
+            try:
+                return rd.header()
+            finally:
+                rd.close()
+        rd = MafReader(lines=[l + "\n" for l in body] if path == "reader:eol" else list(body), validation_stringency=vs)
+        if path == "from_reader":
+            return MafHeader.from_reader(rd)
+        return rd.header()
+    finally:
+        if tmp is not None:
+            try:
+                os.unlink(tmp)
+            except OSError:
+                pass
+
+
+def eval_ctors(lines, mode, paths):
+    """The same lines through MafHeader.from_lines and through every other constructor / reader path in `paths`.
+    In Strict mode a reader may raise on something after the header (its own checks): only the header is compared, and only
+    when both sides produced one or both failed on the header.  Returns (reference, failures)."""
+    def get(path):
+        with impl.LogCapture():
+            try:
+                return full_snapshot(build_by(path, lines, mode))
+            except UnicodeEncodeError:
+                return None
+            except Exception as e:  # noqa
+                return {"exc": exc_name(e)}
+    ref = get("from_lines")
+    failures = []
+    for path in paths:
+        got = get(path)
+        if got is None:
+            continue
+        if mode == "Strict" and ("exc" in got) != ("exc" in ref) and not path.startswith("line_reader"):
+            # a Strict MafReader also raises for what follows the header (column names / scheme): not this property
+            if "exc" in got and "exc" not in ref and not ref["errors"]:
+                continue
+        if got != ref:
+            failures.append({"what": "%s gives a different header than MafHeader.from_lines for the same lines" % path, "kind": "constructors",
+                             "lines": lines, "mode": mode, "path": path,
+                             "differs": sorted(k for k in set(ref) | set(got) if ref.get(k) != got.get(k)),
+                             "from_lines": {k: ref.get(k) for k in set(ref) | set(got) if ref.get(k) != got.get(k)},
+                             "got": {k: got.get(k) for k in set(ref) | set(got) if ref.get(k) != got.get(k)}})
+    return ref, failures
+
+
+def constructor_cases(ctx, out):
+    rng = ctx.rng("hdr", "constructors")
+    reqs = []
+    for n in range(ctx.scale(400, 6000)):
+        lines = gen_lines(rng)
+        if rng.random() < 0.15:
+            # a line that does not start the header symbol ends the header for every reader
+            lines.insert(rng.randrange(len(lines) + 1), rng.choice(["", "x y", "a\tb", " #k v"]))
+        if any("\n" in l or "\r" in l for l in lines):
+            continue
+        mode = rng.choice(["Silent", "Silent", "Silent", "Lenient", "Strict", None])
+        paths = [p for p in CTOR_PATHS if p not in FILE_PATHS or n % 4 == 0]
+        if any(not l.startswith("#") for l in lines):
+            paths = [p for p in paths if p.startswith("line_reader")]     # for a MafReader such a line is the column line
+        out.evaluations += 1
+        ref, failures = eval_ctors(lines, mode, paths)
+        out.failures += failures
+        if mode not in (None, "Silent"):
+            reqs.append({"op": "hdr.lines", "lines": header_part(lines), "mode": mode})
+        for p in paths:
+            out.distribution["ctor:" + p] += 1
+        if "exc" not in ref and ref["records"] and ref["errors"]:
+            out.nontrivial.add(("ctor", repr(lines), mode))
+    return reqs
+
+
+# ----------------------------------------------------------------- edit histories: the header says what its pragmas say
+SPECIAL = ["version", "annotation.spec", "sort.order", "contigs"]
+VALUES = {"version": ["gdc-1.0.0", "gdc-2.0.0", "no-version", "v9"],
+          "annotation.spec": ["gdc-1.0.0-public", "gdc-1.0.0-protected", "gdc-2.0.0-aliquot", "gdc-1.0.0", "no-annotation-specification", "nothing-known"],
+          "sort.order": ORDERS,
+          "contigs": ["chr1,chr2", "1,2,10,X", "a"],
+          "center": ["x", "a b  c"], "note": ["y z", "n"]}
+STARTS = ["from_lines", "reader", "from_reader", "from_defaults", "from_line_reader"]
+
+
+def make_record(key, value, form):
+    """A header record for `key` = `value` (text): parsed from its line, built with the key's own record class, or a plain
+    MafHeaderRecord (version / annotation.spec / ordinary keys, whose value is the text itself)."""
+    from maflib import header as H
+    if form == "parsed":
+        rec, err = H.MafHeaderRecord.from_line("#%s %s" % (key, value))
+        assert err is None
+        return rec
+    if form == "class":
+        if key == "version":
+            return H.MafHeaderVersionRecord(value=value)
+        if key == "annotation.spec":
+            return H.MafHeaderAnnotationSpecRecord(value=value)
+        if key == "sort.order":
+            return H.MafHeaderSortOrderRecord(value=value)
+        if key == "contigs":
+            return H.MafHeaderContigRecord(value=value.split(","))
+    if key in ("sort.order", "contigs"):
+        return make_record(key, value, "parsed")
+    return H.MafHeaderRecord(key, value)
+
+
+def start_header(start):
+    """The header an edit history starts from, and the reader it was derived from (or None)."""
+    from maflib.header import MafHeader
+    from maflib.reader import MafReader
+    from maflib.sort_order import SortOrder
+    ctor, lines, args = start["ctor"], list(start.get("lines", [])), start.get("args", {})
+    kw = {k: v for k, v in args.items() if k in ("version", "annotation")}
+    if args.get("contigs"):
+        kw["contigs"] = list(args["contigs"])
+    if args.get("sort_order"):
+        cls = [so for so in SortOrder.all() if so.name() == args["sort_order"]][0]
+        kw["sort_order"] = cls(contigs=list(args["sort_contigs"])) if args.get("sort_contigs") else cls()
+    if ctor == "from_lines":
+        return MafHeader.from_lines(lines), None
+    if ctor == "from_line_reader":
+        return build_by("line_reader:lf", lines, "Silent"), None
+    if ctor == "from_defaults":
+        return MafHeader.from_defaults(**kw), None
+    reader = MafReader(lines=lines + [COLUMN_LINE, "a\tb"])
+    if ctor == "reader":
+        return reader.header(), None
+    return MafHeader.from_reader(reader, **kw), reader
+
+
+def says(h):
+    """What a header says through its accessors and header-level checks (every call guarded: an accessor that raises is an answer too)."""
+    from maflib.validation import ValidationStringency as VS
+    out = {}
+
+    def call(name, f):
+        try:
+            out[name] = f()
+        except Exception as e:  # noqa
+            out[name] = "EXC:" + exc_name(e)
+    call("records", lambda: [[k, str(h[k])] for k in h])
+    call("version", h.version)
+    call("annotation", h.annotation)
+    call("sort_order", lambda: h.sort_order().name())
+    call("contigs", lambda: None if h.contigs() is None else list(h.contigs()))
+    call("scheme", lambda: (lambda sc: None if sc is None else sc.annotation_spec())(h.scheme()))
+    call("checks", lambda: [e.tpe.name for e in h.validate(validation_stringency=VS.Silent)])
+    return out
+
+
+def like_fresh(h):
+    """The oracle for an edited / assembled header: it says what a header freshly parsed from its own printed lines says
+    (and those lines parse back to the same pragmas without a diagnosed line).  Returns (said, fresh, problem | None)."""
+    from maflib.header import MafHeader
+    said = says(h)
+    try:
+        text = str(h)
+    except Exception as e:  # noqa
+        return said, None, "printing the header raises %s" % exc_name(e)
+    lines = text.split("\n") if text else []
+    fresh_h = MafHeader.from_lines(lines)
+    line_errs = [[e.tpe.name, e.line_number] for e in fresh_h.validation_errors if e.line_number is not None]
+    fresh = says(fresh_h)
+    if line_errs:
+        return said, fresh, "the printed header does not parse back: %s" % line_errs
+    if said != fresh:
+        return said, fresh, "the header differs from a header parsed from its own printed lines on %s" % sorted(k for k in said if said[k] != fresh.get(k))
+    return said, fresh, None
+
+
+def apply_edit(h, st):
+    """One edit through the mapping interface or on a stored record; the exception name when it fails."""
+    op, key = st["op"], st.get("key")
+    try:
+        if op == "set":
+            rec = make_record(key, st["value"], st.get("form", "parsed"))
+            how = st.get("how", "setitem")
+            if how == "update":
+                h.update({key: rec})
+            elif how == "setdefault":
+                h.setdefault(key, rec)
+            else:
+                h[key] = rec
+        elif op == "del":
+            how = st.get("how", "del")
+            if how == "pop":
+                h.pop(key)
+            else:
+                del h[key]
+        elif op == "popitem":
+            h.popitem()
+        elif op == "clear":
+            h.clear()
+        elif op == "inplace":
+            v = st["value"]
+            if key == "contigs":
+                v = v.split(",")
+            elif key == "sort.order":
+                v = make_record(key, v, "class").value
+            h[key].value = v
+        else:
+            raise ValueError("unknown edit %r" % (op,))
+    except Exception as e:  # noqa
+        return exc_name(e)
+    return None
+
+
+def gen_start(rng):
+    ctor = rng.choice(STARTS)
+    start = {"ctor": ctor}
+    if ctor != "from_defaults":
+        if rng.random() < 0.7:
+            start["lines"] = filecases.typical_header(rng, rng.choice(["gdc-1.0.0", "gdc-1.0.0-public", "gdc-1.0.0-protected", "nothing-known"]),
+                                                      sort=rng.choice([None, "Coordinate", "BarcodesAndCoordinate", "Unsorted"]),
+                                                      contigs=rng.choice([None, ["chr1", "chr2"]])) + rng.choice([[], ["#center x"], ["#center x", "#note y z"]])
+        else:
+            start["lines"] = [l for l in gen_lines(rng) if "\n" not in l and "\r" not in l]
+    if ctor in ("from_defaults", "from_reader"):
+        args = {}
+        p = 0.7 if ctor == "from_defaults" else 0.3
+        if rng.random() < p:
+            args["version"] = rng.choice(VALUES["version"])
+        if rng.random() < p * 0.7:
+            args["annotation"] = rng.choice(VALUES["annotation.spec"])
+        if rng.random() < 0.3:
+            args["contigs"] = rng.choice([["1", "2"], ["chr1"]])
+        if rng.random() < 0.4:
+            args["sort_order"] = rng.choice(ORDERS)
+            if args["sort_order"] in ("Coordinate", "BarcodesAndCoordinate") and rng.random() < 0.3:
+                args["sort_contigs"] = ["chrA", "chrB"]
+        start["args"] = args
+    return start
+
+
+def gen_edit(rng, h):
+    present = list(h)
+    k = rng.random()
+    if k < 0.42:
+        key = rng.choice(SPECIAL + SPECIAL + ["center", "note"])
+        return {"op": "set", "key": key, "value": rng.choice(VALUES[key]), "form": rng.choice(["parsed", "class", "plain"]),
+                "how": rng.choice(["setitem", "setitem", "setitem", "update", "setdefault"])}
+    if k < 0.75:
+        special = [x for x in present if x in SPECIAL]
+        key = rng.choice(special) if special and rng.random() < 0.7 else rng.choice(present) if present and rng.random() < 0.9 else rng.choice(SPECIAL)
+        return {"op": "del", "key": key, "how": rng.choice(["del", "del", "pop"])}
+    if k < 0.93:
+        cand = [x for x in present if x in VALUES]
+        if cand:
+            key = rng.choice(cand)
+            return {"op": "inplace", "key": key, "value": rng.choice(VALUES[key])}
+        return {"op": "inplace", "key": "version", "value": "gdc-1.0.0"}
+    return {"op": rng.choice(["popitem", "popitem", "clear"])}
+
+
+def eval_edits(start, next_step, sv=None, sa=None):
+    """An edit history on a header built as `start` says.  `next_step(h)` answers the next edit (with "observe": whether the
+    header is questioned right after it) or None; the header is always questioned at the end, and its printed lines are then
+    judged by the grammar and the header-level rules directly (eval_lines).  Returns a dict: steps (with the exception each
+    edit raised), failures, final (what the header says at the end), printed (its lines), fresh (what a fresh parse says)."""
+    h, reader = start_header(start)
+    before = snapshot(reader.header()) if reader is not None else None
+    steps, failures = [], []
+    said, fresh, problem = like_fresh(h) if start.get("observe_first", True) else (None, None, None)
+    while problem is None:
+        st = next_step(h)
+        if st is None:
+            break
+        st = dict(st)
+        st["exc"] = apply_edit(h, st)
+        steps.append(st)
+        if st.get("observe"):
+            said, fresh, problem = like_fresh(h)
+    if problem is None:
+        said, fresh, problem = like_fresh(h)
+    base = {"kind": "edited-header", "start": start, "lines": start.get("lines", []), "steps": steps}
+    if problem is not None:
+        failures.append(dict(base, what=problem,
+                             header_says={k: said[k] for k in said if fresh is None or said[k] != fresh.get(k)},
+                             fresh_parse_says=None if fresh is None else {k: fresh.get(k) for k in said if said[k] != fresh.get(k)}))
+    if before is not None:
+        after = snapshot(reader.header())
+        if after != before:
+            failures.append(dict(base, what="editing a header derived from a reader changed the reader's own header",
+                                 changed=[k for k in before if before[k] != after[k]]))
+    printed = None
+    try:
+        text = str(h)
+        printed = text.split("\n") if text else []
+    except Exception:  # noqa
+        pass
+    judged = False
+    if not failures and printed is not None and all(is_plain_line(l) for l in printed):
+        if sv is None:
+            sv, sa = supported()
+        judged = True
+        for f in eval_lines(printed, sv, sa)["failures"]:
+            failures.append(dict(base, what="printed lines of the edited header: " + f["what"], printed=printed, inner={k: v for k, v in f.items() if k != "lines"}))
+    return {"steps": steps, "failures": failures, "final": said, "fresh": fresh, "printed": printed, "judged": judged}
+
+
+def edit_history_cases(ctx, out):
+    """Headers from every constructor, edited through the mapping interface and in place, must keep saying what their pragmas say."""
+    rng = ctx.rng("hdr", "edits")
+    sv, sa = supported()
+    reqs = []
+    for _ in range(ctx.scale(400, 6000)):
+        start = gen_start(rng)
+        start["observe_first"] = rng.random() < 0.5
+        left = [rng.randrange(0, 6)]
+
+        def next_step(h):
+            if left[0] == 0:
+                return None
+            left[0] -= 1
+            st = gen_edit(rng, h)
+            st["observe"] = rng.random() < 0.4
+            return st
+        out.evaluations += 1
+        res = eval_edits(start, next_step, sv, sa)
+        out.failures += res["failures"]
+        out.distribution["start:" + start["ctor"]] += 1
+        for st in res["steps"]:
+            out.distribution["edit:%s%s" % (st["op"], ":failed" if st["exc"] else "")] += 1
+        if len([st for st in res["steps"] if st["exc"] is None]) >= 2:
+            out.nontrivial.add(("edits", repr(start), repr(res["steps"])))
+        if res["judged"] and not res["failures"]:
+            reqs.append(({"op": "hdr.lines", "lines": res["printed"], "mode": "Silent"}, res["final"]))
+    return reqs
+
+
+def show_edit(st):
+    op, key = st["op"], st.get("key")
+    if op == "set":
+        rec = {"parsed": "MafHeaderRecord.from_line(%r)" % ("#%s %s" % (key, st["value"])), "class": "<record class of %s>(value=%r)" % (key, st["value"]),
+               "plain": "MafHeaderRecord(%r, %r)" % (key, st["value"])}[st.get("form", "parsed")]
+        how = st.get("how", "setitem")
+        text = "header[%r] = %s" % (key, rec) if how == "setitem" else "header.%s(%s)" % (how, "{%r: %s}" % (key, rec) if how == "update" else "%r, %s" % (key, rec))
+    elif op == "del":
+        text = "header.pop(%r)" % key if st.get("how") == "pop" else "del header[%r]" % key
+    elif op == "inplace":
+        text = "header[%r].value = <%r>" % (key, st["value"])
+    else:
+        text = "header.%s()" % op
+    return text + ("   (then questioned)" if st.get("observe") else "")
+
+
+def is_plain_line(l):
+    return "\n" not in l and "\r" not in l
+
+
 def replay_case(ctx, failure):
     """Re-evaluate the stored lines (and, for a derived header, the stored mutation steps) on the current implementation;
     the failures they produce now ([] = property holds)."""
@@ -307,6 +745,36 @@ def replay_case(ctx, failure):
         for f in failures:
             print("  oracle: %s" % f["what"])
         return failures
+    if failure.get("kind") == "constructors":
+        path, mode = failure.get("path"), failure.get("mode")
+        if path not in CTOR_PATHS or mode not in impl.MODES:
+            return None
+        ref, failures = eval_ctors(list(lines), mode, [path])
+        print("replay C13: a file made of the lines %r (+ a column line and a record), validation mode %s" % (lines, mode))
+        print("  MafHeader.from_lines on its header lines: %s" % ({k: ref[k] for k in ("records", "errors", "scheme")} if "exc" not in ref else "raises " + ref["exc"]))
+        if failures:
+            print("  %s: differs on %s: %s" % (path, failures[0]["differs"], failures[0]["got"]))
+        else:
+            print("  %s: the same header" % path)
+        for f in failures:
+            print("  oracle: %s" % f["what"])
+        return failures
+    if failure.get("kind") == "edited-header":
+        start, steps = failure.get("start"), failure.get("steps")
+        if not isinstance(start, dict) or not isinstance(steps, list):
+            return None
+        todo = [{k: v for k, v in st.items() if k != "exc"} for st in steps]
+        res = eval_edits(start, lambda h: todo.pop(0) if todo else None)
+        print("replay C13: header built by %s%s%s; edits:" % (start["ctor"], " over %r" % (start["lines"],) if "lines" in start else "",
+                                                              " with %r" % (start["args"],) if start.get("args") else ""))
+        for st in res["steps"]:
+            print("  %s%s" % (show_edit(st), "  -> raised %s" % st["exc"] if st["exc"] else ""))
+        print("  the header now says:         %s" % (res["final"],))
+        print("  printed lines: %r" % (res["printed"],))
+        print("  a fresh parse of them says:  %s" % (res["fresh"],))
+        for f in res["failures"]:
+            print("  oracle: %s" % f["what"])
+        return res["failures"]
     sv, sa = supported()
     res = eval_lines(list(lines), sv, sa)
     print("replay C13: MafHeader.from_lines(%r, Silent)" % (lines,))
@@ -330,6 +798,42 @@ def replay_case(ctx, failure):
     for f in res["failures"]:
         print("  oracle: %s" % f["what"])
     return res["failures"]
+
+
+def shrink(ctx, f):
+    """An edit history is cut down to the edits that matter (every stored step is absolute, so any sub-sequence can be re-run)."""
+    if f.get("kind") != "edited-header" or not isinstance(f.get("steps"), list):
+        return f
+    start = dict(f["start"])
+    steps = [{k: v for k, v in st.items() if k != "exc"} for st in f["steps"]]
+
+    def failing(start, steps):
+        todo = [dict(st) for st in steps]
+        try:
+            return eval_edits(start, lambda h: todo.pop(0) if todo else None)["failures"]
+        except Exception:  # noqa
+            return []
+    if not failing(start, steps):
+        return f
+    changed = True
+    while changed:
+        changed = False
+        for i in range(len(steps)):
+            cand = steps[:i] + steps[i + 1:]
+            if failing(start, cand):
+                steps, changed = cand, True
+                break
+    for i in range(len(steps)):
+        if steps[i].get("observe"):
+            cand = [dict(st, observe=False) if j == i else st for j, st in enumerate(steps)]
+            if failing(start, cand):
+                steps = cand
+    if start.get("observe_first", True) and failing(dict(start, observe_first=False), steps):
+        start = dict(start, observe_first=False)
+    again = failing(start, steps)
+    if not again or len(steps) >= len(f["steps"]) and start == f["start"]:
+        return f
+    return dict(again[0], shrunk_from=len(f["steps"]))
 
 
 def search(ctx):
